@@ -142,7 +142,7 @@ def probe(acc, world, trace, meta, props):
     acc.case(key=None, outcome=f"local rows={sorted(set(rows.values()))} sub={len(submitted)}", nontrivial=False)
     # ---- C17: cancel
     if "C17" in props:
-        for label, args in (("all", ["-f"]), ("one", [wf.names()[0]]), ("pat", ["[BCX]*"]), ("two", [wf.names()[0], wf.names()[-1]])):
+        for label, args in (("all", ["-f"]), ("one", [wf.names()[0]]), ("pat", ["[BCX]*"]), ("two", [wf.names()[0], wf.names()[-1]]), ("overlap", ["[AB]*", wf.names()[0]])):
             sel = set(wf.names()) if args == ["-f"] else {n for p in args for n in wf.names() if fnmatch.fnmatchcase(n, p)}
             with W.Session(world) as s:
                 rc = s.gwf(["cancel"] + args)
